@@ -87,18 +87,147 @@ func firstDiff(a, b string) string {
 // ---------------------------------------------------------------------------------------
 
 type parsNorm struct {
-	c      *Ctx
-	info   *types.Info
-	fi     *FuncInfo
-	vec    map[types.Object]string // S, U params; aliases; temps
-	node   map[types.Object]string // cur, prev, c1, c2
-	elem   map[types.Object]string // range value over a vector: "cnt(S[c1])"
-	drop   map[types.Object]bool   // site / state keys
-	depthC int
-	inl    int
-	err    error
-	ren    *canonOpts            // result variable of an inlined helper -> the caller's variable it is assigned to
-	dead   map[types.Object]bool // integer locals that feed nothing (only counted, or handed to an unused parameter)
+	c         *Ctx
+	info      *types.Info
+	fi        *FuncInfo
+	vec       map[types.Object]string // S, U params; aliases; temps
+	node      map[types.Object]string // cur, prev, c1, c2
+	elem      map[types.Object]string // range value over a vector: "cnt(S[c1])"
+	drop      map[types.Object]bool   // site / state keys
+	depthC    int
+	inl       int
+	err       error
+	ren       *canonOpts              // result variable of an inlined helper -> the caller's variable it is assigned to
+	dead      map[types.Object]bool   // integer locals that feed nothing (only counted, or handed to an unused parameter)
+	idOf      map[types.Object]string // `curIdx := cur.Id()`: the local stands for the id of that node role
+	neigh     map[types.Object]string // `neighbors := cur.Neigh()`: the local stands for the neighbour list of that role
+	neighElem map[types.Object]string // index variable of a counting loop over a neighbour list -> role of the element
+	neighList []ast.Expr              // the lists those loops walk (innermost last)
+}
+
+// neighIndexLoop: a counting loop from 0 to len(L), step +1, L a neighbour list (declared in the loop's
+// init or before it); the body does not assign the counter.
+func (pn *parsNorm) neighIndexLoop(x *ast.ForStmt) (idx types.Object, list ast.Expr, ok bool) {
+	info := pn.info
+	init, isAs := x.Init.(*ast.AssignStmt)
+	if !isAs || init.Tok != token.DEFINE || len(init.Lhs) != len(init.Rhs) || x.Cond == nil || x.Post == nil {
+		return nil, nil, false
+	}
+	for i := range init.Lhs {
+		o := identObj(info, init.Lhs[i])
+		if o == nil {
+			return nil, nil, false
+		}
+		if tv, has := info.Types[init.Rhs[i]]; has && tv.Value != nil && constKey(tv.Value) == "0" {
+			if idx != nil {
+				return nil, nil, false
+			}
+			idx = o
+		} else if r, isN := pn.neighRole(init.Rhs[i]); isN {
+			if pn.neigh == nil {
+				pn.neigh = map[types.Object]string{}
+			}
+			pn.neigh[o] = r
+		} else {
+			return nil, nil, false
+		}
+	}
+	if idx == nil {
+		return nil, nil, false
+	}
+	inc, isInc := x.Post.(*ast.IncDecStmt)
+	if !isInc || inc.Tok != token.INC || identObj(info, inc.X) != idx {
+		return nil, nil, false
+	}
+	be, isBin := unparen(x.Cond).(*ast.BinaryExpr)
+	if !isBin || be.Op != token.LSS || identObj(info, be.X) != idx {
+		return nil, nil, false
+	}
+	lc, isCall := unparen(be.Y).(*ast.CallExpr)
+	if !isCall || len(lc.Args) != 1 {
+		return nil, nil, false
+	}
+	if f, isId := lc.Fun.(*ast.Ident); !isId || f.Name != "len" {
+		return nil, nil, false
+	}
+	if _, isN := pn.neighRole(lc.Args[0]); !isN {
+		return nil, nil, false
+	}
+	assigned := false
+	ast.Inspect(x.Body, func(n ast.Node) bool {
+		switch a := n.(type) {
+		case *ast.AssignStmt:
+			for _, l := range a.Lhs {
+				if identObj(info, l) == idx {
+					assigned = true
+				}
+			}
+		case *ast.IncDecStmt:
+			if identObj(info, a.X) == idx {
+				assigned = true
+			}
+		}
+		return true
+	})
+	if assigned {
+		return nil, nil, false
+	}
+	return idx, lc.Args[0], true
+}
+
+// neighElemRole: e is `L[i]` with i the counter of an enclosing neighbour-list loop over that same L
+func (pn *parsNorm) neighElemRole(e ast.Expr) (string, bool) {
+	ix, ok := unparen(e).(*ast.IndexExpr)
+	if !ok {
+		return "", false
+	}
+	o := identObj(pn.info, ix.Index)
+	if o == nil {
+		return "", false
+	}
+	role, ok := pn.neighElem[o]
+	if !ok {
+		return "", false
+	}
+	want, ok1 := pn.neighRole(ix.X)
+	for _, l := range pn.neighList {
+		if got, ok2 := pn.neighRole(l); ok1 && ok2 && got == want && pn.c.canon(pn.info, l, nil) == pn.c.canon(pn.info, ix.X, nil) {
+			return role, true
+		}
+	}
+	return "", false
+}
+
+// nodeIdRole: e is `<node>.Id()` of a node with a role, or a local holding it
+func (pn *parsNorm) nodeIdRole(e ast.Expr) (string, bool) {
+	if call, ok := unparen(e).(*ast.CallExpr); ok {
+		if sel, ok := unparen(call.Fun).(*ast.SelectorExpr); ok && sel.Sel.Name == "Id" && len(call.Args) == 0 {
+			r, ok := pn.node[identObj(pn.info, sel.X)]
+			return r, ok
+		}
+		return "", false
+	}
+	if o := identObj(pn.info, e); o != nil {
+		r, ok := pn.idOf[o]
+		return r, ok
+	}
+	return "", false
+}
+
+// neighRole: e is `<node>.Neigh()` of a node with a role, or a local holding it
+func (pn *parsNorm) neighRole(e ast.Expr) (string, bool) {
+	if call, ok := unparen(e).(*ast.CallExpr); ok {
+		if sel, ok := unparen(call.Fun).(*ast.SelectorExpr); ok && sel.Sel.Name == "Neigh" && len(call.Args) == 0 {
+			r, ok := pn.node[identObj(pn.info, sel.X)]
+			return r, ok
+		}
+		return "", false
+	}
+	if o := identObj(pn.info, e); o != nil {
+		r, ok := pn.neigh[o]
+		return r, ok
+	}
+	return "", false
 }
 
 // cn: canonical text, with the result variables of inlined helpers named after the caller's variable.
@@ -220,6 +349,9 @@ func (pn *parsNorm) vecKey(e ast.Expr) string {
 			return ""
 		}
 		// index by node id
+		if r, ok := pn.nodeIdRole(x.Index); ok {
+			return base + "[" + r + "]"
+		}
 		if call, ok := unparen(x.Index).(*ast.CallExpr); ok {
 			if sel, ok := unparen(call.Fun).(*ast.SelectorExpr); ok && sel.Sel.Name == "Id" {
 				if r, ok := pn.node[identObj(pn.info, sel.X)]; ok {
@@ -405,17 +537,15 @@ func (pn *parsNorm) stmt(s ast.Stmt) string {
 		return pn.stmts(x.List)
 	case *ast.RangeStmt:
 		// children: range over <node>.Neigh()
-		if call, ok := unparen(x.X).(*ast.CallExpr); ok {
-			if sel, ok := unparen(call.Fun).(*ast.SelectorExpr); ok && sel.Sel.Name == "Neigh" {
-				pn.depthC++
-				role := fmt.Sprintf("c%d", pn.depthC)
-				if x.Value != nil {
-					pn.node[identObj(info, x.Value)] = role
-				}
-				body := pn.stmts(x.Body.List)
-				pn.depthC--
-				return "forchildren(" + pn.node[identObj(info, sel.X)] + ")as " + role + " { " + body + " }"
+		if parent, ok := pn.neighRole(x.X); ok {
+			pn.depthC++
+			role := fmt.Sprintf("c%d", pn.depthC)
+			if x.Value != nil {
+				pn.node[identObj(info, x.Value)] = role
 			}
+			body := pn.stmts(x.Body.List)
+			pn.depthC--
+			return "forchildren(" + parent + ")as " + role + " { " + body + " }"
 		}
 		v := pn.vecKey(x.X)
 		if v == "" {
@@ -450,8 +580,32 @@ func (pn *parsNorm) stmt(s ast.Stmt) string {
 			}
 		}
 		return pn.stmts(x.Body.List)
+	case *ast.ForStmt:
+		// `for i := 0; i < len(L); i++` / `for i, L := 0, cur.Neigh(); i < len(L); i++` over a neighbour
+		// list, the element taken as `L[i]`: the same walk as `for _, child := range cur.Neigh()`
+		if idx, list, ok := pn.neighIndexLoop(x); ok {
+			parent, _ := pn.neighRole(list)
+			pn.depthC++
+			role := fmt.Sprintf("c%d", pn.depthC)
+			if pn.neighElem == nil {
+				pn.neighElem = map[types.Object]string{}
+			}
+			pn.neighElem[idx] = role
+			pn.neighList = append(pn.neighList, list)
+			body := pn.stmts(x.Body.List)
+			pn.neighList = pn.neighList[:len(pn.neighList)-1]
+			delete(pn.neighElem, idx)
+			pn.depthC--
+			return "forchildren(" + parent + ")as " + role + " { " + body + " }"
+		}
 	case *ast.IfStmt:
 		if x.Init != nil {
+			if as, ok := x.Init.(*ast.AssignStmt); ok && as.Tok == token.DEFINE && len(as.Lhs) == 1 && len(as.Rhs) == 1 {
+				if r, ok := pn.neighElemRole(as.Rhs[0]); ok {
+					pn.node[identObj(info, as.Lhs[0])] = r
+					return pn.stmt(&ast.IfStmt{If: x.If, Cond: x.Cond, Body: x.Body, Else: x.Else})
+				}
+			}
 			// `if err = recurse(); err != nil { return }` and friends
 			if t := pn.stmt(x.Init); t != "" {
 				return t
@@ -495,11 +649,43 @@ func (pn *parsNorm) stmt(s ast.Stmt) string {
 		if len(x.Lhs) == 1 && pn.dead[identObj(info, x.Lhs[0])] {
 			return ""
 		}
+		if x.Tok == token.DEFINE && len(x.Lhs) == len(x.Rhs) {
+			// `curIdx, parentIdx := cur.Id(), prev.Id()` / `neighbors := cur.Neigh()`: names for ids and lists
+			all := true
+			for i := range x.Lhs {
+				_, isId := pn.nodeIdRole(x.Rhs[i])
+				_, isNeigh := pn.neighRole(x.Rhs[i])
+				if identObj(info, x.Lhs[i]) == nil || !(isId || isNeigh) {
+					all = false
+				}
+			}
+			if all {
+				for i := range x.Lhs {
+					o := identObj(info, x.Lhs[i])
+					if r, ok := pn.nodeIdRole(x.Rhs[i]); ok {
+						if pn.idOf == nil {
+							pn.idOf = map[types.Object]string{}
+						}
+						pn.idOf[o] = r
+					} else if r, ok := pn.neighRole(x.Rhs[i]); ok {
+						if pn.neigh == nil {
+							pn.neigh = map[types.Object]string{}
+						}
+						pn.neigh[o] = r
+					}
+				}
+				return ""
+			}
+		}
 		if len(x.Lhs) == 1 && len(x.Rhs) == 1 {
 			l, r := x.Lhs[0], x.Rhs[0]
 			// temp / alias declarations
 			if x.Tok == token.DEFINE {
 				if o := identObj(info, l); o != nil {
+					if role, ok := pn.neighElemRole(r); ok {
+						pn.node[o] = role
+						return ""
+					}
 					if v := pn.vecKey(r); v != "" {
 						pn.vec[o] = v // alias
 						return ""
